@@ -125,6 +125,28 @@ def build() -> Check:
                 ck.ob("R1.lock-discipline", fn_construct(fi), inside, f"{n.attr} accessed outside `with self._parent_done_lock`", where=f"line {n.lineno}", cell=n.attr)
     ck.floor("tree_accesses", n_acc, 3)
 
+    # R6 the read-only query (raise_if_orphaned: what a resumed operation asks right before its user function) asks the same question as the guard every
+    # update passes in create_checkpoint. The executor model records the query as an event and never looks inside it: a query that only consults the
+    # pre-computed set lets an operation first seen after its ancestor completed run its user function.
+    rio_ = sc.methods.get("raise_if_orphaned")
+    if rio_ is None:
+        raise AnalysisError("ExecutionState.raise_if_orphaned not found")
+
+    def orphan_disjuncts(fn_node, strip):
+        out = []
+        for n_ in ast.walk(fn_node):
+            if isinstance(n_, ast.If) and any(isinstance(b, ast.Raise) and b.exc is not None and "OrphanedChildException" in ast.unparse(b.exc) for b in n_.body):
+                parts = n_.test.values if isinstance(n_.test, ast.BoolOp) and isinstance(n_.test.op, ast.Or) else [n_.test]
+                out.append(sorted(ast.unparse(p_).replace(strip, "") for p_ in parts))
+        return out
+    g_guard = orphan_disjuncts(pm.ckpt_fn.node, "operation_update.")
+    g_query = orphan_disjuncts(rio_.node, "operation_update.")
+    if len(g_guard) != 1 or len(g_query) != 1:
+        raise AnalysisError(f"orphan guard / query not recognised: {g_guard} / {g_query}")
+    ck.ob("R6.read-only-query-asks-what-the-guard-asks", fn_construct(rio_), g_guard[0] == g_query[0],
+          f"create_checkpoint rejects an update when {' or '.join(g_guard[0])}; raise_if_orphaned stops a resumed operation when {' or '.join(g_query[0])}: an operation the "
+          "guard would reject passes the query and runs its user function beneath a completed context")
+
     # R2 closure shape of the marking routine
     mo = sc.methods.get("_mark_orphans")
     if mo is None:
